@@ -225,7 +225,14 @@ impl C11 {
         } else {
             cov.bump("budget.not_hit");
         }
-        if n >= us_.nstep {
+        // (at N == nstep of an unbudgeted run that ended abnormally the budget test at the loop head
+        // and the solver's own give-up test compete for the same iteration: NeedLargerNMax is as
+        // honest as the other status there, so only N > nstep must change nothing)
+        let boundary = n == us_.nstep && us_.status != Status::Success && us_.status != Status::UserInterrupt;
+        if boundary && !same {
+            cov.bump("budget.equal_to_nstep_of_a_failed_run");
+        }
+        if n >= us_.nstep && !boundary {
             if !same {
                 v.push(viol(
                     P,
